@@ -186,15 +186,12 @@ def orchestrate(args):
         seen_keys[v["key"]] = path
 
     wall = time.time() - t0
+    ev_path, ev_error = None, None
     try:
         ev_path = evidence.write(prop, mod, subs, names, results, args, wall, seen_keys, known_hits,
                                  harness_errors)
-    except Exception:
-        import traceback
-
-        traceback.print_exc()
-        print(f"HARNESS-ERROR property={prop} evidence could not be written")
-        return 2
+    except Exception as e:
+        ev_error = f"{type(e).__name__}: {str(e)[:300]}"
 
     for k, h in sorted(known_hits.items()):
         print(f"KNOWN-FINDING: property={prop} {k} {known[k]["what"][:220]} (hit {h['count']}x)")
@@ -212,6 +209,10 @@ def orchestrate(args):
         shutil.rmtree(workdir)
     except Exception:
         pass
+    if ev_error is not None:
+        print(f"HARNESS-ERROR property={prop} evidence could not be written / validated: {ev_error}", file=sys.stderr)
+        if not seen_keys:
+            return 2
     if harness_errors:
         for h in harness_errors[:2]:
             print("HARNESS-ERROR", h[-1800:], file=sys.stderr)
